@@ -105,6 +105,23 @@ func tmpPath(ext string) string {
 	return filepath.Join(caseDir, fmt.Sprintf("f%d.%s", caseSeq%4, ext))
 }
 
+// prepare puts the output path into a rapid-drawn prior state: absent, left over from an earlier
+// case (re-rendering to the same name), or an unrelated longer file. The export must not depend on it.
+func prepare(t *rapid.T, path string) {
+	switch rapid.IntRange(0, 4).Draw(t, "existing-output-file") {
+	case 0, 1:
+		os.Remove(path)
+	case 2:
+		// keep whatever an earlier case left there
+	default:
+		junk := make([]byte, rapid.IntRange(1, 40000).Draw(t, "existing-size"))
+		for i := range junk {
+			junk[i] = 'x'
+		}
+		os.WriteFile(path, junk, 0o644)
+	}
+}
+
 // ---------------------------------------------------------------------------
 // coordinate generator
 
@@ -524,7 +541,7 @@ func Test3MF(t *testing.T) {
 		rec.Case(len(model) >= 1 && (shared || negative), ev.Key("3mf", model), labels...)
 		rec.Sample("3mf", map[string]any{"triangles": model, "batches": batches})
 		path := tmpPath("3mf")
-		os.Remove(path)
+		prepare(t, path)
 		quiet(func() { render.To3MF(nil, path, listRender3{toTriangles(model), batches}) })
 		check3MF(t, rec, "To3MF", path, model)
 	})
@@ -757,11 +774,11 @@ func TestDXF(t *testing.T) {
 		rec.Case(len(model) >= 1 && (shared || negative), ev.Key("dxf", model), labels...)
 		rec.Sample("dxf", map[string]any{"segments": model, "batches": batches})
 		path := tmpPath("dxf")
-		os.Remove(path)
+		prepare(t, path)
 		quiet(func() { render.ToDXF(nil, path, listRender2{toLines(model), batches}) })
 		checkDXF(t, rec, "ToDXF", path, model)
 		path = tmpPath("dxf")
-		os.Remove(path)
+		prepare(t, path)
 		if err := render.SaveDXF(path, toLines(model)); err != nil {
 			rec.Violation(t, "SaveDXF:error", "SaveDXF returned %v for a writable path; model %v", err, model)
 			return
@@ -874,11 +891,11 @@ func TestSVG(t *testing.T) {
 		rec.Case(len(model) >= 1 && (shared || negative), ev.Key("svg", model), labels...)
 		rec.Sample("svg", map[string]any{"segments": model, "batches": batches})
 		path := tmpPath("svg")
-		os.Remove(path)
+		prepare(t, path)
 		quiet(func() { render.ToSVG(nil, path, listRender2{toLines(model), batches}) })
 		checkSVG(t, rec, "ToSVG", path, model)
 		path = tmpPath("svg")
-		os.Remove(path)
+		prepare(t, path)
 		if err := render.SaveSVG(path, "fill:none;stroke:black;stroke-width:0.1", toLines(model)); err != nil {
 			rec.Violation(t, "SaveSVG:error", "SaveSVG returned %v for a writable path; model %v", err, model)
 			return
